@@ -3,7 +3,7 @@
 # into seeded/<ID>-<r>/ (patch.diff, demo, MUTANT.md) and remove the worktree with its build output.
 id=$1; r=$2; wt=/tmp/wt/$id-$r; d=/verif/seeded/$id-$r
 mkdir -p $d
-git -C $wt diff -- src build.rs Cargo.toml > $d/patch.diff
+git -C $wt add -N src 2>/dev/null; git -C $wt diff -- src build.rs Cargo.toml > $d/patch.diff
 cp $wt/tests/demo_*.rs $d/ 2>/dev/null
 cp $wt/MUTANT.md $d/ 2>/dev/null
 ls -la $d
